@@ -168,26 +168,72 @@ class Case:
 
 
 def summarise(P, f, cls_name, plain=False):
-    """list of Cases for the return statements of a small method"""
+    """list of Cases, one per execution path of a small loop-free method (assignments are substituted along the path)"""
     c = Canon(f.node, f.params, cls_name)
     c.plain = plain
     cases = []
-    for n in walk_live(f.node):
-        if isinstance(n, ast.Assign) and len(n.targets) == 1:
-            t = n.targets[0]
-            if c.bind_unpack(t, n.value):
-                continue
-            if isinstance(t, ast.Name):
+
+    def guard_text(test, pol):
+        t = test
+        while isinstance(t, ast.UnaryOp) and isinstance(t.op, ast.Not):
+            t, pol = t.operand, not pol
+        if isinstance(t, ast.Compare) and len(t.ops) == 1 and isinstance(t.ops[0], (ast.Gt, ast.Lt, ast.GtE, ast.LtE)):
+            try:
+                l, r_ = p_str(c.poly(t.left)), p_str(c.poly(t.comparators[0]))
+                op = type(t.ops[0])
+                if not pol:
+                    op = {ast.Gt: ast.LtE, ast.Lt: ast.GtE, ast.GtE: ast.Lt, ast.LtE: ast.Gt}[op]
+                if op in (ast.Lt, ast.LtE):
+                    l, r_, op = r_, l, {ast.Lt: ast.Gt, ast.LtE: ast.GtE}[op]
+                return (f"{l} {'>' if op is ast.Gt else '>='} {r_}", True)
+            except AnalysisError:
+                pass
+        return (norm(t), pol)
+
+    def bind(t, v):
+        if c.bind_unpack(t, v):
+            return
+        if isinstance(t, (ast.Tuple, ast.List)) and isinstance(v, (ast.Tuple, ast.List)) and len(t.elts) == len(v.elts):
+            vals = []
+            for ve in v.elts:
                 try:
-                    c.env[t.id] = c.poly(n.value)
+                    vals.append(c.poly(ve))
                 except AnalysisError:
-                    pass
-    for n in walk_live(f.node):
-        if isinstance(n, ast.Return) and n.value is not None:
-            guards = [(norm(ft.test), ft.pol) for ft in W.guard_facts(n, validate=False)]
-            v = n.value
-            kind, val = classify_value(c, v, cls_name, f)
-            cases.append(Case(guards, kind, val, n))
+                    vals.append(None)
+            for te, pv in zip(t.elts, vals):
+                if isinstance(te, ast.Name) and pv is not None:
+                    c.env[te.id] = pv
+            return
+        if isinstance(t, ast.Name):
+            try:
+                c.env[t.id] = c.poly(v)
+            except AnalysisError:
+                c.env.pop(t.id, None)
+
+    def walk(stmts, guards):
+        for i, st in enumerate(stmts):
+            if isinstance(st, ast.Expr) and isinstance(st.value, ast.Constant):
+                continue
+            if isinstance(st, ast.Assign) and len(st.targets) == 1:
+                bind(st.targets[0], st.value)
+                continue
+            if isinstance(st, ast.If):
+                saved = dict(c.env)
+                walk(list(st.body) + list(stmts[i + 1:]), guards + [guard_text(st.test, True)])
+                c.env = dict(saved)
+                walk(list(st.orelse) + list(stmts[i + 1:]), guards + [guard_text(st.test, False)])
+                c.env = saved
+                return
+            if isinstance(st, ast.Return):
+                if st.value is not None:
+                    kind, val = classify_value(c, st.value, cls_name, f)
+                    cases.append(Case(list(guards), kind, val, st))
+                return
+            if isinstance(st, (ast.Pass, ast.Assert)):
+                continue
+            raise AnalysisError(f"{f.qual}: statement `{first_line(st)}` not understood")
+
+    walk(f.node.body, [])
     return c, cases
 
 
@@ -383,10 +429,8 @@ def _check_logaddexp(c, general):
         b = p_key(p_add(p_atom("o"), p_atom("log1p(exp(-1*o + s))")))
         b2 = p_key(p_add(p_atom("o"), p_atom("log1p(exp(s + -1*o))")))
         lae = p_key(p_atom("logaddexp(o, s)"))
-        pos = any(t == "self.score > other.score" and pol or t == "other.score < self.score" and pol or
-                  t == "self.score <= other.score" and not pol or t == "self.score >= other.score" and pol for t, pol in k.guards)
-        neg = any(t == "self.score > other.score" and not pol or t == "self.score <= other.score" and pol or
-                  t == "self.score < other.score" and pol for t, pol in k.guards)
+        pos = any(pol and t in ("s > o",) for t, pol in k.guards)
+        neg = any(pol and t in ("o >= s", "o > s") for t, pol in k.guards)
         if got == lae:
             continue
         if pos and got in (a, a2):
